@@ -260,8 +260,15 @@ func TestGenerated(t *testing.T) {
 	refl.LargeCaps = []int{255, 300, 1025}
 	refl.LadderRepeatCap = 1100
 	refl.LadderOdds = 2 // every step of this check costs a deep fingerprint and all observers
+	if !pbt.Thorough() {
+		refl.LadderOdds = 4 // the quick tier runs on every change: half as many of the thousand-element cases
+	}
 	for _, kind := range refl.Kinds {
-		pbt.Run(t, pbt.Target[Case]{Name: kind, Checks: 600, Gen: gen(kind), Check: check})
+		checks := 600
+		if kind == "doublylinkedlist" || kind == "singlylinkedlist" {
+			checks = 380 // every observer and the fingerprint walk the chain: these two cost three to five times the others
+		}
+		pbt.Run(t, pbt.Target[Case]{Name: kind, Checks: checks, Gen: gen(kind), Check: check})
 	}
 	// float64 elements (NaN, the two zeros, infinities) with the default constructors:
 	// elements that are not equal to themselves must not survive Clear either
